@@ -11,7 +11,7 @@ from ._water import scenario_facts
 
 PID = "C13"
 LEVEL = "model_checking"
-WITNESSES = ["yesterdays_potential_rates_checked", "day_outside_every_configured_season", "off_season_day", "edited_object_reused", "depletion_estimate_checked", "stage_after_delayed_germination", "irrigated_day", "threshold_exceeded_day", "threshold_stage_2", "threshold_stage_3", "threshold_stage_4",
+WITNESSES = ["stage_boundary_from_the_configuration", "yesterdays_potential_rates_checked", "day_outside_every_configured_season", "off_season_day", "edited_object_reused", "depletion_estimate_checked", "stage_after_delayed_germination", "irrigated_day", "threshold_exceeded_day", "threshold_stage_2", "threshold_stage_3", "threshold_stage_4",
              "interval_day", "scheduled_application", "scheduled_date_outside_season", "schedule_capped_by_daily_max",
              "net_irrigation_day", "seasonal_cap_binding", "daily_max_binding"]
 NONTRIVIAL = [w for w in WITNESSES if w != "off_season_day"]
@@ -56,6 +56,11 @@ def scenarios(tier, seed=0):
     for (method, kw), wet, fm in itertools.product([(1, {"SMT": [80] * 4}), (1, {"SMT": [100] * 4}), (2, {"IrrInterval": 1})], (30, 60), ("none", "mulch50")):
         c = A._b(crop="maize.2", iwc="Pct70", word="dry", win="w2", soil="SandyLoam", field=fm)
         yield {"kind": "irr", "config": c, "irr": irr_spec(method, kw, None, 6, 10000, 90, wet)}
+    # transplanted crops (PlantMethod 0: the first stage starts with the transplant-recovery lag) and the other crop kinds under stage-
+    # dependent thresholds
+    for ck, smt in itertools.product(("potato.2", "tomato.2", "rice.2", "cotton.2", "wheat.15"), ([10, 85, 85, 85], [80, 60, 40, 20])):
+        c = A._b(crop=ck, iwc="FC", word="dry", win="w2", soil="SandyLoam")
+        yield {"kind": "irr", "config": c, "irr": irr_spec(1, {"SMT": smt}, None, 8, 10000, 100)}
     # schedule tables built other ways than a datetime64 column: the docstring's DataFrame([dates, depths]).T (object-dtype columns of
     # timestamps), the same from date strings, rows listed latest first
     for style, sch, mi in itertools.product(("object_ts", "object_str", "reversed"), ("inseason", "big", "outside", "beyond_window"), (25, 5)):
